@@ -4,7 +4,7 @@
    never delivered, and that an activity lacking its object / target changes nothing. *)
 From Coq Require Import String List Bool Arith.
 From Verif Require Import Base.ListX Base.Json Base.Free Pub.Events Pub.Calls Pub.Value Pub.EffectSpec Pub.Util Pub.SideEffect Pub.Fed Pub.Soc Pub.BaseActor Pub.Monitors.
-From Verif Require Import Proofs.OnlyProofs Proofs.OrderProofs Proofs.DeliveryProofs Proofs.ForwardIffProofs Proofs.TargetProofs Proofs.EffectProofs.
+From Verif Require Import Proofs.OnlyProofs Proofs.OrderProofs Proofs.DeliveryProofs Proofs.ForwardIffProofs Proofs.TargetProofs Proofs.EffectProofs Proofs.StoreProofs Proofs.SocStoreProofs.
 Import ListNotations.
 Open Scope string_scope.
 Open Scope list_scope.
@@ -113,6 +113,47 @@ Example C16_example :
   update_merge stored supplied raw = JObj [("type", JStr "Note"); ("id", JStr "https://x.example/n"); ("content", JStr "new"); ("name", JStr "n")].
 Proof. vm_compute. reflexivity. Qed.
 
+(* ---- what the client-side callbacks store, against ANY world (stored : what Get answers for every id; env answers Get as
+   the world does and is otherwise arbitrary - every fault elsewhere included).  S env m = the Create / Update / Delete /
+   SetInbox / SetOutbox / BatchDeliver events of the run of m, in order. ---- *)
+(* Update: whenever it succeeds, exactly one Update per object, in order, of update_spec applied to what is stored under the
+   object's id, the object as posted, and the raw object at the same index (whose JSON nulls remove members); nothing else *)
+Theorem C16_update_stores_exactly : forall stored env, (forall i, env (EDb "Get" [JStr i]) = AJson (stored i)) ->
+  forall cfg raw a, res_env env (Soc.update cfg raw a) = Ok tt ->
+  exists ids news,
+    ids_of "object" a = Ok ids /\ length ids = length (elems0 "object" a)
+    /\ Forall2 (update_written stored raw) (combine (seq 0 (length (elems0 "object" a))) (combine (elems0 "object" a) ids)) news
+    /\ S env (Soc.update cfg raw a) = map (fun t => EDb "Update" [canon t]) news.
+Proof. exact update_stores_world. Qed.
+(* Delete: exactly one Update per named object, in order, of the Tombstone of what is stored, deleted at the clock's reading;
+   the Tombstone keeps nothing of the deleted value but type / id / formerType / published / updated / deleted *)
+Theorem C16_delete_tombstones_exactly : forall stored env, (forall i, env (EDb "Get" [JStr i]) = AJson (stored i)) ->
+  forall cfg a z, env ENow = AZ z -> res_env env (Soc.delete cfg a) = Ok tt ->
+  exists ids, ids_of "object" a = Ok ids
+    /\ S env (Soc.delete cfg a) = map (fun id => EDb "Update" [canon (to_tombstone (stored id) id (Base.Time.rfc3339_utc z))]) ids.
+Proof. exact delete_stores_world. Qed.
+Theorem C16_tombstone_keeps_nothing_else : forall obj id now_ k,
+  ~ In k ["type"; "id"; "formerType"; "published"; "updated"; "deleted"] -> jget k (to_tombstone obj id now_) = None.
+Proof. exact tombstone_no_other_member. Qed.
+(* Like, for EVERY environment: the actor's liked collection is read and rewritten once - like_spec puts the object ids in
+   front (C16_like) - under the actor's lock, after the outbox's lock was held to find the actor; nothing else is stored *)
+Theorem C16_like_stores_exactly : forall env cfg outbox a, res_env env (Soc.like cfg outbox a) = Ok tt ->
+  exists actor liked ids,
+    env (EDb "ActorForOutbox" [JStr outbox]) = AIri actor
+    /\ env (EDb "Liked" [JStr actor]) = AJson liked
+    /\ to_ids "object" (elems0 "object" a) = Ok ids
+    /\ S env (Soc.like cfg outbox a) = [EDb "Update" [canon (like_spec ids liked)]]
+    /\ filter is_lock (evs_env env (Soc.like cfg outbox a)) = [ELock outbox; ELock actor].
+Proof. exact like_stores_any. Qed.
+(* Block, for EVERY environment: nothing is stored or sent by the callback, and the activity is marked not to be delivered *)
+Theorem C16_block_stores_nothing : forall env cfg a, S env (Soc.block cfg a) = [].
+Proof. exact block_stores_nothing. Qed.
+Theorem C16_block_not_deliverable : forall env cfg outbox raw perm a r,
+  c_social cfg = true -> mem "Block" (c_soc_other cfg) = false -> type_name a = "Block" ->
+  res_env env (soc_callbacks cfg outbox raw perm a) = Ok r ->
+  r = (a, false) /\ S env (soc_callbacks cfg outbox raw perm a) = [].
+Proof. exact block_not_deliverable. Qed.
+
 Print Assumptions C16_update.
 Print Assumptions C16_delete.
 Print Assumptions C16_add.
@@ -124,3 +165,9 @@ Print Assumptions C16_block_never_delivered.
 Print Assumptions C16_missing_changes_nothing.
 Print Assumptions C16_add_every_owned_target.
 Print Assumptions C16_remove_every_owned_target.
+Print Assumptions C16_update_stores_exactly.
+Print Assumptions C16_delete_tombstones_exactly.
+Print Assumptions C16_tombstone_keeps_nothing_else.
+Print Assumptions C16_like_stores_exactly.
+Print Assumptions C16_block_stores_nothing.
+Print Assumptions C16_block_not_deliverable.
